@@ -462,6 +462,8 @@ def parsePlume (ctx : Ctx R) (c : Cur) (tags : List String) : PM R (PlumeFeature
       let ds ← cc.getNumVec "depths"
       let ct ← cc.getNumVec "centerline temperatures"
       let sg ← cc.getNumVec "gaussian sigmas"
+      -- `WBAssertThrow(gaussian_sigma != 0., …)` for every sigma, then non-emptiness, then the lengths
+      if sg.any (fun (x : R) => Scalar.beq x 0.0) then .error .other
       if ds.length == 0 then .error .other
       if ct.length != ds.length || sg.length != ds.length then .error .length
       return TempModel.gaussian op ds ct sg
